@@ -62,6 +62,10 @@ def check(repo, col, tier):
     c10.scatter_sites(repo, col, cl, "R-C19-scatter", "R-C19-sentinel")
     col.rule("R-C19-confine", "every edit through a view is confined to the rows in view (a mechanism is present exactly where it was inserted)", 25)
     c11._confine(repo, col, "R-C19-confine")
+    col.rule("R-C19-refresh", "a view refreshed after one of its own deletions keeps its rows, edges, scope and kind", 3)
+    c11.refreshed_view(repo, col, "R-C19-refresh")
+    col.rule("R-C19-groups", "groups hold sorted, unique row labels (a row added twice is one member)", 1)
+    c11.group_normal_form(repo, col, "R-C19-groups")
     col.rule("R-C19-viewtrain", "view.delete_trainables() removes the view's trainables and nothing else", 5)
     c10.view_trainables(repo, col, "R-C19-viewtrain")
     c10.filter_rows(repo, col, "R-C19-viewtrain")
@@ -370,89 +374,112 @@ def _undo(repo, col):
     s = released.get("columns")
     cols_t = s.value.kw.get("columns") if s is not None else None
     if cols_t is not None:
-        cm = T.find(cols_t, lambda x: x.op == "comp" and len(x.args) >= 3 and
-                    T.find(x.args[2], lambda y: y.op == "attr" and y.name == "channels" and y.args[0].op == "attr" and y.args[0].name == "base") is not None)
-        if cm is None:
-            col.unk(R, dele, "delete_channel: the dropped columns are those NO remaining channel declares", "column filter not recognised", node=s.node)
-        else:
-            c, neg = cm.args[2], False
+        mentions_others = lambda t: T.find(t, lambda y: y.op == "attr" and y.name == "channels" and y.args[0].op == "attr" and y.args[0].name == "base") is not None
+        from_cols = lambda t: T.find(t, lambda y: y.op == "attr" and y.name in ("channel_params", "channel_states")) is not None
+
+        def selects_unused(c):
+            """does the condition hold for the columns WITHOUT remaining users?  True / False / None"""
+            neg = False
             while c.op == "not" or (c.op == "unary" and c.name == "Not"):
                 neg, c = not neg, c.args[0]
-            verdict = None
-            if c.op in ("sub", "call", "mcall", "comp", "listacc") and not (c.op == "call" and c.name == "len"):
-                verdict = neg                       # `not users[col]`
-            elif c.op == "cmp" and len(c.args) == 2 and c.args[0].op == "call" and c.args[0].name == "len" and c.args[1].op == "const" and c.args[1].name == 0:
-                verdict = (c.name == "==") != neg   # len(users[col]) == 0
-            if verdict is None:
-                col.unk(R, dele, "delete_channel: the dropped columns are those NO remaining channel declares", f"filter {cm.args[2].short(80)}", node=s.node)
-            else:
-                col.check(verdict, R, dele, "delete_channel: the dropped columns are those NO remaining channel declares", "if not users[col]",
-                          "the columns that ARE still declared by a remaining channel are dropped (and the deleted channel's own ones stay)", node=s.node)
+            if c.op == "cmp" and len(c.args) == 2 and c.args[0].op == "call" and c.args[0].name == "len" and c.args[1].op == "const" and c.args[1].name == 0:
+                return {"==": True, "<=": True, "!=": False, ">": False}.get(c.name, None) if not neg else {"==": False, "<=": False, "!=": True, ">": True}.get(c.name, None)
+            if c.op in ("sub", "comp", "listacc", "phi", "carried") or (c.op in ("call", "mcall") and c.name not in ("len",)):
+                return neg                          # `not users[col]`
+            return None
+        conds = []
+        # (a) a comprehension over the deleted channel's columns, filtered by the users
+        for cm in T.find_all(cols_t, lambda x: x.op == "comp" and len(x.args) >= 3 and from_cols(x.args[1]) and not mentions_others(x.args[1])):
+            conds.append(cm.args[2])
+        # (b) a list filled in the loop over the columns: the guard of the append
+        if not conds:
+            for a_ in ed.stores:
+                if a_.kind == "mcall" and a_.key.name == "append" and isinstance(a_.node, ast.Call) and T.find(cols_t, lambda x: x.op in ("listacc", "list", "carried", "phi")) is not None \
+                        and from_cols(a_.value.args[-1]) and not mentions_others(a_.value.args[-1]):
+                    gs = [g for g in a_.guards if g.op != "loop" and mentions_others(g)]
+                    if gs and T.find(cols_t, lambda x: x.key() == a_.base.key() or T.find(x, lambda y: y.key() == a_.value.args[-1].key()) is not None) is not None:
+                        conds += gs
+        verdicts = [selects_unused(c) for c in conds]
+        if not conds or None in verdicts:
+            col.unk(R, dele, "delete_channel: the dropped columns are those NO remaining channel declares",
+                    f"filter {conds[0].short(80) if conds else 'not found'}", node=s.node)
+        else:
+            col.check(all(verdicts), R, dele, "delete_channel: the dropped columns are those NO remaining channel declares", "if not users[col]",
+                      "the columns that ARE still declared by a remaining channel are dropped (and the deleted channel's own ones stay)", node=s.node)
 
 
-def _classify(repo, col):
-    R = "R-C19-classify"
+def _classify(repo, col, R="R-C19-classify"):
+    """_filter_trainables decides for every trainable whether its stored indices are rows of .nodes or of .edges, and intersects them
+    with the view's rows of THAT table.  Decided on the value that is tested with `np.isin` (whatever the chain of if / elif /
+    conditional expressions looks like): it is evaluated for the three kinds of trainable key -- a node column (radius, length, v,
+    channel parameters and states), a synapse parameter, a synapse STATE -- by deciding each membership test of the key for that kind."""
+    from sa.terms import canon as _canon
     fi = repo.method("View", "_filter_trainables")
-    # the if/elif chain that assigns trainable_inds_in_view
-    chain = None
-    for n in ast.walk(fi.node):
-        # (the chain whose branches intersect the stored rows with the rows / edges in view, whatever the result is called)
-        if isinstance(n, ast.If) and any(isinstance(b, ast.Assign) and isinstance(b.value, ast.Call) and unparse(b.value.func).endswith("intersect1d")
-                                         and any(isinstance(y, ast.Attribute) and y.attr in ("_nodes_in_view", "_edges_in_view") for y in ast.walk(b.value))
-                                         for b in n.body):
-            chain = n
-            break
-    if chain is None:
-        raise AnalysisError("_filter_trainables: classification of the trainable key vanished")
     ex = idx.expander(repo, fi)
-    tests = []
-    node = chain
-    has_else = False
-    while True:
-        tests.append(node)
-        if len(node.orelse) == 1 and isinstance(node.orelse[0], ast.If):
-            node = node.orelse[0]
-            continue
-        has_else = bool(node.orelse)
-        break
-    covered = {"node": "none", "edge": "none"}
-    for t in tests:
-        tt = ex.term(t.test)
-        if not (tt.op == "cmp" and tt.name == "in"):
-            continue
-        coll = tt.args[1]
+    terms = [s_.value for s_ in ex.stores] + list(ex.returns) + [g for s_ in ex.stores for g in s_.guards]
+    isin = next((q for t in terms for q in [T.find(t, lambda x: x.op == "mcall" and x.name == "isin")] if q is not None), None)
+    if isin is None:
+        raise AnalysisError("_filter_trainables: classification of the trainable key vanished")
+    fa = [a for a in isin.args if a.op != "free"]
+    V = _canon(fa[1])
+    if T.find(V, lambda x: x.op == "mcall" and x.name == "intersect1d") is None:
+        raise AnalysisError("_filter_trainables: classification of the trainable key vanished")
+    KINDS = ("node column", "synapse parameter", "synapse state")
+
+    def member(coll, kind):
+        """is a key of `kind` a member of the collection? True / False / None (unknown collection)"""
         if coll.op == "attr" and coll.name == "columns":
             k = table_kind(coll.args[0])
             if k:
-                covered["node" if k == "nodes" else "edge"] = "total"
+                return (kind == "node column") == (k == "nodes")
+        if coll.op == "attr" and coll.name in ("synapse_param_names", "synapse_params"):
+            return kind == "synapse parameter"
+        if coll.op == "attr" and coll.name in ("synapse_state_names", "synapse_states"):
+            return kind == "synapse state"
+        if coll.op == "binop" and coll.name == "+":
+            parts = [member(a_, kind) for a_ in coll.args]
+            return None if None in parts else any(parts)
+        if coll.op in ("list", "tuple") and all(a_.op == "star" for a_ in coll.args):
+            parts = [member(a_.args[0], kind) for a_ in coll.args]
+            return None if None in parts else any(parts)
+        if coll.op in ("call", "mcall") and coll.name in ("list", "set", "tuple", "keys") and coll.args:
+            return member(coll.args[-1] if coll.op == "call" else coll.args[0], kind)
+        return None
+
+    def truth(c, kind):
+        neg = False
+        while c.op == "not" or (c.op == "unary" and c.name == "Not"):
+            neg, c = not neg, c.args[0]
+        v = None
+        if c.op == "cmp" and c.name in ("in", "not in") and len(c.args) == 2:
+            v = member(c.args[1], kind)
+            if v is not None and c.name == "not in":
+                v = not v
+        elif c.op == "bool":
+            vs = [truth(a_, kind) for a_ in c.args]
+            if None not in vs:
+                v = all(vs) if c.name == "And" else any(vs)
+        return None if v is None else (v != neg)
+
+    def value_for(t, kind):
+        while t.op == "ifexp":
+            tv = truth(t.args[0], kind)
+            if tv is None:
+                return None, t.args[0]
+            t = t.args[1] if tv else t.args[2]
+        return t, None
+    for kind in KINDS:
+        v, unknown = value_for(V, kind)
+        want = "_nodes_in_view" if kind == "node column" else "_edges_in_view"
+        if v is None:
+            col.unk(R, fi, f"a trainable {kind} is intersected with the view's rows of its own table", f"test `{unknown.short(80)}` not decided", node=fi.node)
             continue
-        if T.find(coll, lambda x: x.op == "attr" and x.name in ("channel_params",)) is not None:
-            covered["node"] = "partial (channel parameters only)" if covered["node"] == "none" else covered["node"]
-        if T.find(coll, lambda x: x.op == "attr" and x.name in ("synapse_params",)) is not None:
-            covered["edge"] = "partial (synapse parameters only)" if covered["edge"] == "none" else covered["edge"]
-        # the branch must intersect with the rows of the matching table
-        for b in t.body:
-            if isinstance(b, ast.Assign):
-                v = unparse(b.value)
-    for kc, witness in (("node", "radius / length / v / channel states"), ("edge", "synapse states")):
-        ok = covered[kc] == "total" or has_else
-        col.check(ok, R, fi, f"classifier covers every trainable {kc} key",
-                  f"{covered[kc]}",
-                  f"_filter_trainables recognises {covered[kc]} among the {kc} keys and has no fall-through: for {witness} "
-                  f"the result stays None, so a view never shows these trainables and view.delete_trainables() keeps them",
-                  node=chain)
-    # each branch intersects with the rows of its own table
-    for t in tests:
-        tt = ex.term(t.test)
-        asg = next((b for b in t.body if isinstance(b, ast.Assign)), None)
-        if asg is None:
-            continue
-        v = ex.term(asg.value)
-        is_node = T.find(tt, lambda x: x.op == "attr" and (x.name == "channel_params" or (x.name == "columns" and table_kind(x.args[0]) == "nodes"))) is not None
-        want = "_nodes_in_view" if is_node else "_edges_in_view"
-        ok = v.op == "mcall" and v.name == "intersect1d" and T.find(v, lambda x: x.op == "attr" and x.name == want) is not None
-        col.check(ok, R, fi, f"{'node' if is_node else 'edge'} keys are intersected with self.{want}", unparse(asg.value),
-                  f"branch `{unparse(t.test)[:50]}` intersects with {unparse(asg.value)}", node=asg)
+        rows = {x.name for x in T.find_all(v, lambda x: x.op == "attr" and x.name in ("_nodes_in_view", "_edges_in_view"))}
+        is_int = v.op == "mcall" and v.name == "intersect1d"
+        col.check(is_int and rows == {want}, R, fi, f"a trainable {kind} is intersected with the view's rows of its own table", f"np.intersect1d(inds, self.{want})",
+                  (f"for a {kind} the stored indices are compared with {sorted(rows)}: edge numbers and compartment numbers are different number spaces, a view of "
+                   f"compartments then shows / deletes the trainables of synapses that happen to have the same numbers" if is_int else
+                   f"for a {kind} the result is `{v.short(60)}`: a view never shows these trainables and view.delete_trainables() keeps them"), node=fi.node)
 
 
 def _pair(repo, col):
